@@ -155,14 +155,30 @@ def _l2(ctx):
                   f"stop after nested {cls_name} containing the compute")
     # Fork skip
     hb = arms["Hierarchical"]
-    forks = [x for b in hb for x in ast.walk(b) if isinstance(x, ast.If) and isinstance_classes(x.test, "node") == ["Fork"]]
-    ctx.require(len(forks) == 1, R, "nested Fork test")
-    skip = [x for x in ast.walk(forks[0]) if isinstance(x, ast.If) and "find(compute_node" in norm(x.test)]
-    ok = bool(skip) and norm(skip[0].test).replace(" ", "") in ("node.find(compute_node,default=None)isNone",) and isinstance(skip[0].body[-1], ast.Continue)
-    ctx.check(ok, R, fi, skip[0].test if skip else forks[0].test, "a Fork that does not contain the requested compute is not skipped: its nodes are added to the path", "Fork without the compute is skipped")
-    # the Fork test must come before the nested flatten call in the Hierarchical arm
+    skips = [x for b in hb for x in ast.walk(b) if isinstance(x, ast.If) and "find(compute_node" in norm(x.test) and isinstance(x.body[-1], ast.Continue)]
     calls = [x for b in hb for x in ast.walk(b) if isinstance(x, ast.Call) and call_name(x) == "_flatten"]
-    ctx.check(bool(calls) and forks[0].lineno < calls[0].lineno, R, fi, forks[0].test, "the Fork skip test comes after the nested flatten", "Fork tested before descending")
+    if not skips:
+        ctx.bad(R, fi, hb[0], "a Fork that does not contain the requested compute is not skipped: its nodes are added to the path")
+    for sk in skips:
+        n = cfg.node_of(sk)
+        guards = [(h.ast.test, lab) for h, lab in cfg.control_conditions(n) if h.kind == "if" and isinstance_classes(h.ast.test, "node") is not None]
+        # which node classes reach the skip?  only Fork may (a plain Hierarchical above the compute is part of the path)
+        reach_plain = True
+        reach_fork = True
+        for test, lab in guards:
+            cs = isinstance_classes(test, "node")
+            for cls_name, var in (("Hierarchical", "plain"), ("Fork", "fork")):
+                v = any(ctx.repo.is_subclass(cls_name, c) for c in cs)
+                v = v if lab == "true" else not v
+                if var == "plain":
+                    reach_plain = reach_plain and v
+                else:
+                    reach_fork = reach_fork and v
+        ok_test = norm(sk.test).replace(" ", "") in ("node.find(compute_node,default=None)isNone",)
+        ctx.check(ok_test and reach_fork, R, fi, sk.test, "a Fork that does not contain the requested compute is not skipped: its nodes are added to the path", "Fork without the compute is skipped")
+        ctx.check(not reach_plain, R, fi, sk.test, "the skip also applies to a plain nested Hierarchical: the leaves of a Hierarchical that sits ABOVE the compute on the main path (but does not contain it) are dropped "
+                                                   "from the flattened path", "only Forks are skipped (a plain Hierarchical is part of the main path)")
+        ctx.check(bool(calls) and sk.lineno < calls[0].lineno, R, fi, sk.test, "the Fork skip test comes after the nested flatten", "Fork tested before descending")
     # Array._flatten never descends into branches
     af = ctx.func(ST, "Array._flatten", R)
     st2, ch2, _ = find_chain(af, "node", "Branch")
@@ -260,6 +276,9 @@ VARIANTS = [
 """, "                    fanout *= new_fanout\n")]},
     {"kind": "F", "name": "last-node-check-removed", "rule": "C25-L4", "edits": [
         (SPEC, "            if found[-1][-1].name != c:\n                raise EvaluationError(f\"Compute node {c} not found in architecture\")\n", "")]},
+    {"kind": "F", "name": "skip-applies-to-every-hierarchical", "rule": "C25-L2", "edits": [
+        (ST, "                    if isinstance(node, Fork):\n                        # If it's a compute node and our node is not in the fork, skip\n                        # it\n                        if node.find(compute_node, default=None) is None:\n                            continue",
+         "                    if node.find(compute_node, default=None) is None:\n                        continue")]},
     {"kind": "S", "name": "fork-test-hoisted", "edits": [
         (ST, "                    if isinstance(node, Fork):\n                        # If it's a compute node and our node is not in the fork, skip\n                        # it\n                        if node.find(compute_node, default=None) is None:\n                            continue",
          "                    if isinstance(node, (Fork,)):\n                        if node.find(compute_node, default=None) is None:\n                            continue")]},
